@@ -488,3 +488,41 @@ func (j *Journal) Signature() string {
 	}
 	return fmt.Sprintf("p%d o%d t%d a%d c%d", n[0], n[1], n[2], n[3], n[4])
 }
+
+// FixAssertions recomputes the asserted quantities of all A/L assertions from
+// the journal's bookings (positions at the end of the assertion's day), for use
+// after transactions were added to an accepted journal. Accrued transactions
+// are ignored (their accounts are never asserted by the generator).
+func FixAssertions(j *Journal) {
+	for i := range j.Dirs {
+		a := &j.Dirs[i]
+		if a.Kind != KAssert {
+			continue
+		}
+		bals := append([]Bal{}, a.Bals...)
+		for bi := range bals {
+			if !isAL(bals[bi].Acc) {
+				continue
+			}
+			sum := new(big.Rat)
+			for _, d := range j.Dirs {
+				if d.Kind != KTxn || d.Accrual != nil || d.Date > a.Date {
+					continue
+				}
+				for _, b := range d.Bookings {
+					if b.Com != bals[bi].Com {
+						continue
+					}
+					if b.Debit == bals[bi].Acc {
+						sum.Add(sum, Rat(b.Qty))
+					}
+					if b.Credit == bals[bi].Acc {
+						sum.Sub(sum, Rat(b.Qty))
+					}
+				}
+			}
+			bals[bi].Qty = DecString(sum)
+		}
+		a.Bals = bals
+	}
+}
